@@ -20,9 +20,9 @@ tensor-product topologies, Kronecker structure for ``.vector(n)``, span(th-*) ==
 
 import json, traceback, warnings, hashlib
 import numpy
-from vlib.runner import Result, rng_for
+from vlib.runner import Result, rng_for, scaled
 from vlib import tolerance
-from vlib import c12_topo as ct, c12_gen as cg, c12_monitors as cm
+from vlib import c12_topo as ct, c12_gen as cg, c12_monitors as cm, c12_alias as ca
 from vlib.c12_oracle import Refused
 
 PROPERTY = 'C12'
@@ -40,7 +40,7 @@ ASSUMPTIONS = ['nutils_poly (external package) evaluates polynomials correctly',
 BUDGET_S = {'quick': 80, 'thorough': 1400}
 NCASES = {'quick': 2400, 'thorough': 40000}
 CHUNK = 10
-FLOORS = {'quick': dict(cases=400, elements=3500, cont=700, pum=250), 'thorough': dict(cases=8000, elements=80000, cont=15000, pum=4000)}
+FLOORS = {'quick': dict(cases=400, elements=3500, cont=700, pum=250, alias_shared=20, alias_reuse=40), 'thorough': dict(cases=8000, elements=80000, cont=15000, pum=4000, alias_shared=400, alias_reuse=800)}
 
 REFUSAL_TYPES = (ValueError, NotImplementedError, AssertionError)
 F_SINGLE = cm.FINDING_SINGLE
@@ -160,7 +160,7 @@ def short_knot_vector(models):
 
 # ---------------------------------------------------------------- execution of one case
 
-def execute(case, res, T=None):
+def execute(case, res, T=None, prebuilt=None):
     res.count('evaluations')
     spec = case['topo']
     if T is None and 'build_error' not in case:
@@ -178,7 +178,7 @@ def execute(case, res, T=None):
     with warnings.catch_warnings():
         warnings.simplefilter('ignore')
         try:
-            _execute(case, res, T)
+            _execute(case, res, T, prebuilt)
         except Exception:
             res.violation('exception while observing a constructed basis', case, traceback.format_exc()[-1800:])
 
@@ -190,7 +190,7 @@ def degree_label(kw):
     return str(d) if isinstance(d, int) else 'x'.join(map(str, d))
 
 
-def _execute(case, res, T):
+def _execute(case, res, T, prebuilt=None):
     from nutils import function
     bspec = case['basis']
     bt, kw = bspec['btype'], bspec['kwargs']
@@ -227,7 +227,8 @@ def _execute(case, res, T):
     # ---- construct
     nkw = cg.mp_kwargs_to_nutils(kw) if T.mp is not None else dict(kw)
     try:
-        B = T.topo.basis(bt, **nkw)
+        # prebuilt: the aliasing family hands in a basis it built itself from caller-owned ndarrays with these values
+        B = prebuilt if prebuilt is not None else T.topo.basis(bt, **nkw)
     except Exception as e:
         # A crash while constructing is not a refuting event of this property (it speaks of the bases a topology CAN
         # construct): refusals and construction failures are counted and described in the evidence, never violations.
@@ -692,6 +693,132 @@ def _run_merge_case(res, case):
             res.violation('merge_index_map contract', case, f'{p}; index_map={index_map.tolist()}')
 
 
+# ---------------------------------------------------------------- history / aliasing of ndarray keyword arguments
+
+def _alias_viol(res, scn, monitor, detail):
+    res.count('violations_seen/untagged')
+    if res.counters['violations_seen/untagged'] <= 40:
+        res.violation(monitor, scn, detail)
+
+
+def run_alias_scenario(scn, res, index):
+    scn = dict(scn, index=index)
+    res.count('alias/scenarios')
+    with warnings.catch_warnings():
+        warnings.simplefilter('ignore')
+        try:
+            _run_alias_scenario(scn, res, index)
+        except Exception:
+            _alias_viol(res, scn, 'exception while observing a constructed basis', traceback.format_exc()[-1500:])
+
+
+def _run_alias_scenario(scn, res, index):
+    Ts = []
+    for spec in scn['topos']:
+        try:
+            Ts.append(build_topology(spec))
+        except Exception as e:
+            res.count('alias/topology_not_built')
+            Ts.append(None)
+    live = ca.make_arrays(scn['arrays'])
+    original = {name: list(a['values']) for name, a in scn['arrays'].items()}
+    seen_before = set()
+    built = []
+    for icall, call in enumerate(scn['calls']):
+        T = Ts[call['topo']]
+        if T is None:
+            continue
+        bt, kw = call['btype'], call['kwargs']
+        names = ca.refs_of(kw)
+        res.count('alias/calls')
+        if any(n_ in seen_before for n_ in names):
+            res.count('alias/calls_reusing_an_earlier_array')
+        order = ca.shared_axes(kw, scn['topos'][call['topo']])
+        if order:
+            res.count('alias/calls_sharing_one_array_between_periodic_and_nonperiodic_axis')
+            res.count('alias/shared_' + order)
+        if any(scn['arrays'][n_].get('readonly') for n_ in names):
+            res.count('alias/calls_with_readonly_array')
+        if len(set(names)) < len(names):
+            res.count('alias/calls_sharing_one_array_between_axes')
+        seen_before.update(names)
+        label = f"call {icall}: {bt} on {T.kind} with {json.dumps(kw)}"
+        # (a) caller-owned arrays must survive the call bit-identically
+        before = ca.snapshot(live)
+        err = B = None
+        modified = False
+        try:
+            B = T.topo.basis(bt, **ca.materialise(kw, live.__getitem__))
+        except Exception as e:
+            err = e
+        after = ca.snapshot(live)
+        res.count('alias/snapshots_compared', len(before))
+        for name in before:
+            if before[name] != after[name]:
+                now = live[name].tolist()
+                _alias_viol(res, scn, 'caller-owned array modified by basis()', f'{label}: array {name} was {numpy.frombuffer(before[name][0], dtype=before[name][2]).tolist()} '
+                            f'(writeable={before[name][3]}) before the call and is {now} (writeable={after[name][3]}) after it')
+                modified = True
+        # (b) same call with fresh deep copies of the ORIGINAL values
+        ferr = F = None
+        try:
+            F = T.topo.basis(bt, **ca.materialise(kw, lambda n_: numpy.array(original[n_], dtype=int if scn['arrays'][n_]['dtype'] == 'int' else float)))
+        except Exception as e:
+            ferr = e
+        if err is not None and ferr is not None:
+            res.count('alias/refused_with_shared_and_with_fresh_arrays')
+            res.add('alias_refusals', f'{bt} {sorted(kw)}: {type(err).__name__}: {str(err)[:60]}')
+            continue
+        if (err is None) != (ferr is None):
+            bad, which = (err, 'the shared / reused / read-only arrays') if err is not None else (ferr, 'fresh writable copies')
+            _alias_viol(res, scn, 'construction depends on identity, history or writability of ndarray arguments',
+                        f'{label}: raised {type(bad).__name__}: {str(bad)[:150]} with {which} but succeeded with the other; arrays now: ' + json.dumps({k: v.tolist() for k, v in live.items()}))
+            return
+        res.count('alias/shared_vs_fresh_compared')
+        S = T.topo.sample('gauss', 2)
+        if len(B) != len(F):
+            _alias_viol(res, scn, 'basis from shared arrays differs from basis from fresh copies', f'{label}: len {len(B)} (shared / reused arrays) vs {len(F)} (fresh copies of the original values)')
+            return
+        VB, VF = S.eval(B), S.eval(F)
+        v, det = tolerance.compare(VB, VF, check_kind=False)
+        if v == tolerance.VIOLATION:
+            _alias_viol(res, scn, 'basis from shared arrays differs from basis from fresh copies', f'{label}: values on a sample differ: {det}')
+            return
+        for i in range(B.nelems):
+            if numpy.asarray(B.get_dofs(i)).tolist() != numpy.asarray(F.get_dofs(i)).tolist():
+                _alias_viol(res, scn, 'basis from shared arrays differs from basis from fresh copies', f'{label}: get_dofs({i}) differs')
+                return
+        built.append((icall, T, B, S, VB))
+        # (c) the ordinary monitor suite, with the model of the ORIGINAL values, applied to the basis built from the shared arrays
+        if 'R' in names:
+            res.count('alias/model_suite_skipped_removedofs_array')
+            continue
+        jkw = ca.materialise(kw, lambda n_: list(original[n_]))
+        if isinstance(jkw.get('degree'), list) and len(set(jkw['degree'])) == 1:
+            pass
+        case = dict(index=index, topo=scn['topos'][call['topo']], basis=dict(btype=bt, kwargs=jkw), derived=[], sample=['gauss', 2],
+                    aux_seed=index + icall, pum_via_function=False, alias_call=icall, alias_scenario={k: v for k, v in scn.items()})
+        nv = len(res.violations)
+        execute(case, res, T, prebuilt=B)
+        res.count('alias/model_suite_runs')
+        if len(res.violations) > nv or modified:
+            return
+    # (d) a basis must not change when the caller later overwrites the arrays it was built from
+    if scn.get('scribble') and built:
+        for name, arr in live.items():
+            arr.setflags(write=True)
+            if arr.dtype.kind == 'i':
+                arr[...] = arr[::-1] + 1 if len(arr) > 1 else arr + 1
+            else:
+                arr[...] = arr * 3. + 1.
+        for icall, T, B, S, VB in built:
+            res.count('alias/re_evaluations_after_overwriting_caller_arrays')
+            V2 = T.topo.sample('gauss', 2).eval(B)
+            if V2.shape != VB.shape or tolerance.compare(V2, VB, check_kind=False)[0] == tolerance.VIOLATION:
+                _alias_viol(res, scn, 'basis changed when the caller overwrote its own arrays', f'call {icall}: values of the existing basis object changed after the caller modified the arrays it had passed')
+                return
+
+
 # ---------------------------------------------------------------- runner protocol
 
 def run_units(units, ctx):
@@ -705,6 +832,8 @@ def run_units(units, ctx):
                     continue
                 if i % 4 == 0:
                     check_merge_index_map(res, ctx.seed, i)
+                if i % 8 == 3:
+                    run_alias_scenario(ca.gen_scenario(rng_for(ctx.seed, 'c12-alias', i)), res, i)
                 case, T = gen_case(ctx.seed, i, ctx.tier)
                 execute(case, res, T)
                 if i % 499 == 0 and 'basis' in case:
@@ -718,6 +847,10 @@ def replay(case):
     with treelog.set(treelog.NullLog()):
         if case.get('kind') == 'merge_index_map':
             _run_merge_case(res, case)
+        elif case.get('kind') == 'alias':
+            run_alias_scenario(case, res, case.get('index', 0))
+        elif 'alias_scenario' in case:
+            run_alias_scenario(case['alias_scenario'], res, case.get('index', 0))
         else:
             execute(case, res)
     return res.violations
@@ -775,7 +908,10 @@ REPRODUCERS = {F_NESTED: repro_nested_mask, F_SINGLE: repro_single_selection, F_
 
 def finalize(m, tier, seed):
     c = m.counters
-    fl = FLOORS[tier]
+    import os
+    fl = dict(FLOORS[tier])
+    if os.environ.get('VERIF_SCALE'):
+        fl = {k: scaled(v) for k, v in fl.items()}  # development slices: floors shrink with the case count
     bases = {k[6:]: v for k, v in c.items() if k.startswith('bases/')}
     by_type, by_kind, by_degree = {}, {}, {}
     for k, v in bases.items():
@@ -799,6 +935,7 @@ def finalize(m, tier, seed):
                bspline_reference_checks=c.get('bspline_reference_checks', 0), pruned_checks=c.get('pruned_checks', 0),
                th_span_checks=c.get('th_span_checks', 0), merge_index_map_checks=c.get('merge_index_map_checks', 0), product_checks=c.get('product_checks', 0),
                derived={k[8:]: v for k, v in c.items() if k.startswith('derived/')},
+               alias={k[6:]: v for k, v in c.items() if k.startswith('alias/')}, alias_refusals=sorted(m.sets.get('alias_refusals', ()))[:12],
                refusals={k[9:]: v for k, v in c.items() if k.startswith('refusals/')},
                construction_failed={k[20:]: v for k, v in c.items() if k.startswith('construction_failed/')},
                construction_failed_notes=sorted(m.sets.get('construction_failed', ()))[:20], refusal_messages=sorted(m.sets.get('refusal_messages', ()))[:25],
@@ -825,6 +962,10 @@ def finalize(m, tier, seed):
         inc = f'basis types never constructed: {sorted(need_types - set(by_type))}'
     elif not all(cov['derived'].get(k, 0) for k in ('mask/bool', 'partition', 'vector')) or not cov['pruned_checks'] or not cov['th_span_checks'] or not cov['bspline_reference_checks']:
         inc = 'a derived-basis / pruned / th-span / B-spline monitor was never reached'
+    elif cov['alias'].get('calls_sharing_one_array_between_periodic_and_nonperiodic_axis', 0) < fl['alias_shared'] or cov['alias'].get('calls_reusing_an_earlier_array', 0) < fl['alias_reuse'] \
+            or cov['alias'].get('shared_nonperiodic_first', 0) < fl['alias_shared'] // 4 or cov['alias'].get('shared_periodic_first', 0) < fl['alias_shared'] // 4 \
+            or cov['alias'].get('model_suite_runs', 0) < fl['alias_reuse'] // 2:
+        inc = f"aliasing family barely reached: {cov['alias']}"
     elif cov['float_marginal'] > 0.005 * max(1, cov['float_compares']):
         inc = f"{cov['float_marginal']} of {cov['float_compares']} float comparisons fell in the marginal band"
     return dict(coverage=cov, inconclusive=inc)
